@@ -5,6 +5,7 @@ import (
 	"fmt"
 	"math"
 	"os"
+	"runtime"
 
 	"github.com/RoaringBitmap/roaring"
 	segment "github.com/blugelabs/bluge_segment_api"
@@ -355,9 +356,11 @@ func (w *World) buildNew(i int, sd *SegDef) (*WSeg, *Fail) {
 	ws.Fields = model.BuiltFields(ws.Docs)
 	var seg segment.Segment
 	var err error
+	PreBuild(w.Impl, len(docs))
 	pi := Guard(func() {
 		seg, ws.NewSize, err = w.Impl.New(ToSegmentDocs(docs, w.DV, w.Sched), model.NormFn(sd.Norm), sd.Mode)
 	})
+	PostBuild(w.Impl, len(docs), ws.NewSize)
 	if pi != nil {
 		return nil, &Fail{Prop: "C01", Oracle: "world", Kind: "panic", Site: pi.Site, Detail: fmt.Sprintf("New(seg %d, %d docs, mode %d) panicked: %s", i, len(docs), sd.Mode, pi.Msg)}
 	}
@@ -484,4 +487,46 @@ func MergeModeOrBuild(ws *WSeg) uint32 {
 		return ws.Def.Mode
 	}
 	return MergeMode(ws.Def)
+}
+
+// ---- keeping ice's buffer estimate from inflating the process --------------------
+//
+// ice's builder pre-sizes its output buffer with (bytes per document of the
+// pooled builder's previous build) x (documents of this batch). That is a
+// resource habit, not one of the properties (C14: the bytes do not depend on
+// it), but in a process that builds a one-document 4 MB batch (70 000
+// locations) and, cases later, a 3 000-document batch, New reserves 13 GiB - and
+// when the runtime serves that from recycled memory it has to zero it, so the
+// process really occupies it. The memory watchdog would then take the unchanged
+// code for a blow-up. So the harness keeps book of the heaviest build per
+// implementation and, before a batch whose reservation could exceed half a
+// gigabyte, empties the builder pool: two GC cycles drop the contents of a
+// sync.Pool, and a few one-document builds overwrite the estimates of whatever
+// other kind of free list an implementation may keep.
+
+var heaviest = map[*Impl]int{} // largest bytes/doc built since the last drain
+
+const poolDrainThreshold = 512 << 20
+
+// PreBuild is called before a build of nDocs documents (harness context only:
+// never from inside a scheduled task).
+func PreBuild(impl *Impl, nDocs int) {
+	h := heaviest[impl]
+	if h == 0 || nDocs < 2 || h*(nDocs+1) < poolDrainThreshold {
+		return
+	}
+	runtime.GC()
+	runtime.GC()
+	tiny := []model.Doc{{Fields: []model.Field{{Name: "r", Terms: []model.Term{{T: model.Bytes("x"), N: 1}}}}}}
+	for i := 0; i < 16; i++ {
+		_ = Guard(func() { _, _, _ = impl.New(ToSegmentDocs(tiny, nil, nil), model.NormFn(1), 1025) })
+	}
+	heaviest[impl] = 0
+}
+
+// PostBuild records the outcome of a build (harness context only).
+func PostBuild(impl *Impl, nDocs int, size uint64) {
+	if nDocs > 0 && int(size)/nDocs > heaviest[impl] {
+		heaviest[impl] = int(size) / nDocs
+	}
 }
